@@ -697,4 +697,56 @@ example :
     let g : Group := { budget := 10, denom := 1, sumSize := 16, items := [{ id := 0, size := 3 }, { id := 1, size := 5 }, { id := 2, size := 8 }] }
     g.items.map (quotaOf g) = [1, 3, 5] := by decide
 
+/-! ## calcHostMetricBudgets: the x2 bonus on top of the quotas (aggregator.go, `keepF`) -/
+
+/-- the bonus doubles exactly the rows that fit their quota; a row never gets more than twice its quota -/
+theorem host_budget_cases (size quota : Int) (hq : 0 ≤ quota) :
+    (size ≤ quota → hostBudget size quota = 2 * quota) ∧ (quota < size → hostBudget size quota = quota) ∧
+    hostBudget size quota ≤ 2 * quota ∧ quota ≤ hostBudget size quota := by
+  unfold hostBudget
+  refine ⟨fun h => by simp [h]; omega, fun h => by simp [show ¬ size ≤ quota by omega], ?_, ?_⟩ <;> split <;> omega
+
+theorem quotaOf_nonneg (g : Group) (it : Item) (hD : 0 < g.denom * g.sumSize) (hB : 0 ≤ g.budget) (hs : 0 ≤ it.size) :
+    0 ≤ quotaOf g it := by
+  unfold quotaOf
+  exact Int.ediv_nonneg (Int.mul_nonneg hB hs) (Int.le_of_lt hD)
+
+/-- a row of a sampled partition never fits its quota (its share is below the partition's size), so the bonus goes
+    only to rows of partitions kept whole by the keep loop (quota = size, budget 2*size) -/
+theorem sampled_row_gets_no_bonus (g : Group) (it : Item) (hD : 0 < g.denom * g.sumSize) (hs : 0 < it.size)
+    (hover : g.budget < g.denom * g.sumSize) : hostBudget it.size (quotaOf g it) = quotaOf g it := by
+  have hq : quotaOf g it < it.size := by
+    unfold quotaOf
+    apply Int.ediv_lt_of_lt_mul hD
+    nlinarith
+  unfold hostBudget
+  simp [show ¬ it.size ≤ quotaOf g it by omega]
+
+/-- host_budgets_le_twice_share: the budgets handed back for one sampled partition, bonus included, sum to at most
+    twice its budget share (`quota ≤ 2·share`; by sampled_row_gets_no_bonus the factor 2 is never actually used there) -/
+theorem host_budgets_le_twice_share (g : Group) (hsum : g.sumSize = sumSizes g.items) (hd : 0 < g.denom) (hs : 0 < g.sumSize)
+    (hB : 0 ≤ g.budget) (hsz : ∀ it ∈ g.items, 0 ≤ it.size) :
+    (g.items.map (fun it => hostBudget it.size (quotaOf g it))).sum ≤ 2 * (g.budget / g.denom) := by
+  have hD : 0 < g.denom * g.sumSize := Int.mul_pos hd hs
+  have h1 := quota_sum_le_budget g hsum hd hs
+  have h2 : ∀ l : List Item, (∀ it ∈ l, 0 ≤ it.size) →
+      (l.map (fun it => hostBudget it.size (quotaOf g it))).sum ≤ 2 * (l.map (quotaOf g)).sum := by
+    intro l hl
+    induction l with
+    | nil => simp
+    | cons x xs ih =>
+      have := ih (fun y hy => hl y (by simp [hy]))
+      have hx := (host_budget_cases x.size (quotaOf g x) (quotaOf_nonneg g x hD hB (hl x (by simp)))).2.2.1
+      simp only [List.map_cons, List.sum_cons]
+      omega
+  have := h2 g.items hsz
+  omega
+
+/-- non-vacuity: receive budget 10 over hosts reporting 3, 5, 8 bytes: budgets 1, 3, 5 (no bonus); a host whose
+    metric fits (quota = its size 4) is handed 8 -/
+example :
+    let g : Group := { budget := 10, denom := 1, sumSize := 16, items := [{ id := 0, size := 3 }, { id := 1, size := 5 }, { id := 2, size := 8 }] }
+    g.items.map (fun it => hostBudget it.size (quotaOf g it)) = [1, 3, 5] ∧ hostBudget 4 4 = 8 := by decide
+
+
 end SH.Sampler
